@@ -49,6 +49,11 @@ class EidField(CborField):
                 if not path.startswith('/'):
                     path = '/' + path
             ssp += path
+            # any query and fragment text is part of the scheme-specific part
+            for (ix, char) in enumerate(x):
+                if char in '?#':
+                    ssp += x[ix:]
+                    break
 
             return [scheme_type, ssp]
 
